@@ -1,1 +1,35 @@
+//! `otvar` — an independent OpenType variation evaluator (part of the trusted base).
+//!
+//! Everything here is written from the OpenType specification on top of raw table bytes:
+//!
+//! * [`axes`]  — fvar axis records, default normalisation, avar v1 segment maps;
+//! * [`glyf`]  — glyf/loca decoding (simple glyph points, component records);
+//! * [`gvar`]  — gvar header, tuple variation headers, packed point numbers and deltas,
+//!   tuple scalars (implied and intermediate regions), IUP inference;
+//! * [`ivs`]   — ItemVariationStore and DeltaSetIndexMap (HVAR, VVAR, MVAR, GDEF);
+//! * [`font`]  — [`VFont`], tying the above together: a glyph at a location, the outline
+//!   through the component graph, advances, MVAR/GDEF deltas, non-vacuity counters;
+//! * [`crosscheck`] — the only place skrifa is used: a second opinion on outlines/advances.
+//!
+//! read-fonts is used for the sfnt table directory and the `post` glyph names only.
+//!
+//! Numbers: coordinates and deltas are f64 and never rounded by the evaluator (callers bound
+//! errors themselves; [`InstGlyph::rounded`] gives the `floor(x + 0.5)` variant). Normalized
+//! coordinates are F2Dot14 values represented exactly as f64.
 
+pub mod axes;
+pub mod crosscheck;
+pub mod font;
+pub mod glyf;
+pub mod gvar;
+pub mod ivs;
+pub mod rd;
+
+pub use axes::{Axes, AxisInfo, InstanceInfo};
+pub use crosscheck::{CrossCheck, crosscheck_skrifa, crosscheck_skrifa_detail};
+pub use font::{
+    Comp, Contour, InstGlyph, InstKind, MAX_COMPONENT_DEPTH, MetricsVarInfo, Pt, Resolved, VFont,
+    ot_round,
+};
+pub use gvar::{GvarStats, TupleVar};
+pub use ivs::{DeltaSetIndexMap, ItemVarStore};
